@@ -16,14 +16,20 @@ import (
 )
 
 // Verif_C08_HTTPStream: as the in-process harness, over HTTP.
-func Verif_C08_HTTPStream() {
+func Verif_C08_HTTPStream() { verifC08HTTPStream(false) }
+
+// Verif_C08_HTTPStreamCancel: the same with a caller's context that may be
+// cancelled at any scheduling point (its own harness so that its schedule bound
+// can be set separately).
+func Verif_C08_HTTPStreamCancel() { verifC08HTTPStream(true) }
+
+func verifC08HTTPStream(mayCancel bool) {
 	k := zv.Choose("responses", 4)
 	fails := zv.Bool("handler-fails")
 	withMeta := zv.Bool("headers-and-trailers")
 	headerFirst := zv.Bool("client-asks-for-headers-first")
 	// the caller's context may end at any moment (environment event): whenever the
 	// call is then still reported as a success, it must be a success by the rule
-	mayCancel := zv.Bool("context-may-be-cancelled")
 	// ... and the handler may still be busy (here: waiting for that very event)
 	// when it ends, so that the end of the stream has not been seen yet
 	lingers := mayCancel && zv.Bool("handler-lingers-until-the-context-ends")
